@@ -306,7 +306,9 @@ theorem marshal_methods_at_base (maxDepth : Nat) (ms : MethodSet) (fns : List Fn
         rw [hno, makeMethodMarshaler_noMethods] at h
         simp only [hkind] at h
         split at h
-        · exact (ih _ _ c h).cons
+        · split at h
+          · simp at h
+          · exact (ih _ _ c h).cons
         · simp [Outcome.error] at h
     · intro k l' hc'
       rw [h] at hc'
